@@ -72,7 +72,9 @@ RECURSIVE GroupStart(_, _)     \* first line of the maximal comment run that end
 GroupStart(lay, i) == IF i >= 1 /\ IsComment(lay[i]) THEN GroupStart(lay, i - 1) ELSE i + 1
 
 Num(i) == ToString(i)
-DocText(k, i) == IF k = "K" THEN "k" \o Num(i) ELSE "c" \o Num(i)      \* text the harness writes on comment line i
+(* text the harness writes on comment line i. Every third // line reads "go: c<i>": ordinary words that happen to start like a
+   compiler directive (a real directive has no space after the slashes and is no part of the comment text) *)
+DocText(k, i) == IF k = "K" THEN "k" \o Num(i) ELSE IF i % 3 = 2 THEN "go: c" \o Num(i) ELSE "c" \o Num(i)
 TagVal(i) == "v" \o Num(i)                                               \* // +t=v<i>
 TrailText(i) == "t" \o Num(i)
 
